@@ -24,6 +24,9 @@ def jobs(mod, tier, seed, quick=(1, 1500, 200, 250, 10), thorough=(2, 30000, 600
         heavy = mod.FIXED[i].get("heavy")   # a long scenario: fewer runs of each kind
         js.append({"kind": "systematic", "index": i, "bound": bound, "max_runs": max_runs // 8 if heavy else max_runs})
         js.append({"kind": "fixed_random", "index": i, "n": n_fixed // 4 if heavy else n_fixed, "seed": derive_seed(seed, mod.PID, "f", i)})
+        if mod.FIXED[i].get("bound2") and bound < 2:
+            # a small scenario whose race needs two deviations from the default schedule: enumerate those too (seed-independent)
+            js.append({"kind": "systematic", "index": i, "bound": 2, "max_runs": 5000})
         if mod.FIXED[i].get("stall_runs"):
             # scenarios built for a "stale decision after the lock was released" window: long stalls at synchronisation points
             n = mod.FIXED[i]["stall_runs"] * (1 if tier == "quick" else 12)
@@ -39,7 +42,7 @@ def run_job(mod, job, col):
     if k == "fixed_stall":
         import random
         rnd = random.Random(job["seed"])
-        base = {kk: v for kk, v in mod.FIXED[job["index"]].items() if kk not in ("stall_runs", "stall_params", "heavy")}
+        base = {kk: v for kk, v in mod.FIXED[job["index"]].items() if kk not in ("stall_runs", "stall_params", "heavy", "bound2")}
         for _ in range(job["n"]):
             sp = mod.FIXED[job["index"]].get("stall_params") or {}
             spec = {"kind": "stall", "seed": rnd.randrange(10 ** 9), "stalls": rnd.choice([1, 1, 2]), "est_hot": rnd.choice(sp.get("est_hot", [20, 30, 40, 60])),
@@ -50,7 +53,7 @@ def run_job(mod, job, col):
                 case = dict(case, schedule=S.replay_spec(trace))
             col.record(case, fs, nontrivial=nt, labels=set(labels) | {"fixed-scenario", "stall-schedule"})
     elif k == "fixed_random":
-        base = {kk: v for kk, v in mod.FIXED[job["index"]].items() if kk not in ("stall_runs", "stall_params", "heavy")}
+        base = {kk: v for kk, v in mod.FIXED[job["index"]].items() if kk not in ("stall_runs", "stall_params", "heavy", "bound2")}
 
         cnt = [0]
 
@@ -78,7 +81,7 @@ def run_job(mod, job, col):
 
         hyp_run(mod.case_strategy(), one, job["n"], job["seed"])
     elif k == "systematic":
-        base = {kk: v for kk, v in mod.FIXED[job["index"]].items() if kk not in ("stall_runs", "stall_params", "heavy")}
+        base = {kk: v for kk, v in mod.FIXED[job["index"]].items() if kk not in ("stall_runs", "stall_params", "heavy", "bound2")}
 
         def runner(src):
             fs, nt, labels, trace, sched = mod.run_case_full(base, source=src, record=True)
